@@ -266,20 +266,24 @@ func decide(c aCase) (*rp.Fail, verdict) {
 		port := got.ap.Port()
 		written := func(n uint64) bool {
 			// the number occurs in the text as a maximal digit run with that value (leading zeros allowed)
-			digits := 0
+			// (significant digits are counted: a run of any length that is all leading zeros plus at most 18 digits has a value)
+			digits, significant := 0, 0
 			var val uint64
 			for i := 0; i <= len(c.S); i++ {
 				if i < len(c.S) && c.S[i] >= '0' && c.S[i] <= '9' {
-					if digits < 18 {
-						val = val*10 + uint64(c.S[i]-'0')
+					if significant > 0 || c.S[i] != '0' {
+						significant++
+						if significant <= 18 {
+							val = val*10 + uint64(c.S[i]-'0')
+						}
 					}
 					digits++
 					continue
 				}
-				if digits > 0 && digits < 18 && val == n {
+				if digits > 0 && significant <= 18 && val == n {
 					return true
 				}
-				digits, val = 0, 0
+				digits, significant, val = 0, 0, 0
 			}
 			return false
 		}
@@ -427,7 +431,7 @@ func TestSweeps(t *testing.T) {
 		b := &bulk{t: t, n: map[string]int64{}, nt: map[string]int64{}, check: "addr"}
 		octets := []string{"0", "1", "255", "256", "01"}
 		seps := [][3]string{{".", ".", "."}, {":", ".", "."}, {".", "..", "."}, {".", ".", ""}, {".", ":", "."}, {"", ".", "."}}
-		ports := []string{"", ":", ":0", ":1", ":59999", ":60000", ":60001", ":65535", ":65536", ":080", ":123456", ":125537", ":65537", ":4295027297", ":18446744073709611617"}
+		ports := []string{"", ":", ":0", ":1", ":59999", ":60000", ":60001", ":65535", ":65536", ":080", ":123456", ":125537", ":65537", ":4295027297", ":18446744073709611617", ":0000000000000000000000001000", ":000000000000000000000000000000060001"}
 		junk := []string{"", " ", "x"}
 		idx := 0
 		stride := ev.Pick(10, 1)
@@ -641,7 +645,7 @@ func FuzzAddr(f *testing.F) {
 	if os.Getenv("VERIF_FUZZ") == "" {
 		f.Skip("native fuzzing runs in the thorough tier only")
 	}
-	for _, s := range []string{"", "0.0.0.0", "192.168.1.100:60000", "255.255.255.255:65535", "1.2.3.4:0", "1.2.3.4:", "::ffff:1.2.3.4", "[::1]:80", "1.2.3.4:080", "256.1.1.1", "1.2.3", "1.2.3.4.5:6"} {
+	for _, s := range []string{"", "0.0.0.0", "192.168.1.100:60000", "255.255.255.255:65535", "1.2.3.4:0", "1.2.3.4:", "::ffff:1.2.3.4", "[::1]:80", "1.2.3.4:080", "256.1.1.1", "1.2.3", "1.2.3.4.5:6", "0.0.0.0:0000000000000000000000001000", "1.2.3.4:00000000000000000000000000060001"} {
 		f.Add(s)
 	}
 	f.Fuzz(func(t *testing.T, s string) {
